@@ -29,6 +29,7 @@ type PropDef struct {
 	Explanation    string
 	Extra          func(r *propRun)
 	ServiceLoops   []string // loop keys that are intentionally unbounded service loops
+	Select         func(o *govc.Oblig) bool // which obligations of the units belong to this property (nil = all)
 }
 
 func (d *PropDef) units(p *govc.Program) []Unit {
